@@ -321,7 +321,29 @@ def make_site_system(
         # make one site never visited (exercise group-local -> global index mapping)
         victim = int(rng.integers(n_sites))
         states = np.where(states == victim, -1, states)
+    tail = None
+    if T >= 8 and rng.uniform() < 0.4:
+        # tail event: atom a arrives at a new site at frame t0 and stays there to the end; with an
+        # inner fraction < 1 it only reaches the outer shell (a jump that the inner-site rule leaves
+        # unconfirmed when the data end).  Atom a+1 is a late starter: away from all sites until
+        # after t0, so that atoms have very different first-event times.
+        a = int(rng.integers(n_atoms))
+        t0 = int(rng.integers(T // 3, T - 1))
+        cur_s = int(states[t0 - 1, a])
+        others = [b for b in range(n_atoms) if b != a]
+        free_sites = [x for x in range(n_sites) if x != cur_s and not np.any(states[t0 - 1 :, others] == x)]
+        if cur_s >= 0 and free_sites:
+            states[t0:, a] = int(free_sites[int(rng.integers(len(free_sites)))])
+            if rng.integers(2) and t0 + 1 < T:
+                states[t0, a] = -1  # through no-site rather than by a direct hop
+            tail = (a, t0)
+            if n_atoms > 1 and rng.uniform() < 0.7:
+                b = (a + 1) % n_atoms
+                t1 = int(rng.integers(t0 + 1, T)) if t0 + 1 < T else T - 1
+                states[:t1, b] = -1
     inner = inner_flags(rng, states, inner_fraction)
+    if tail is not None and inner_fraction < 1.0:
+        inner[tail[1] :, tail[0]] = -1
     pos, via_image = realise_positions(rng, m, site_frac, radii, inner_fraction, states, inner, margin)
     # framework atoms
     n_framework = int(rng.integers(1, 5)) if n_framework is None else n_framework
